@@ -10,6 +10,9 @@
  *        cases: icase 0..1, notbol 0..1, noteol 0..1, lines = all strings of 0..maxlen alphabet
  *        characters (by length, then lexicographically) + "\n"; per case so,eo in base 36,
  *        "--" = not found, "**" = engine hit its depth limit, "!!" = a group >= 1 is not -1.
+ *   tb <hexpat> <icase> <hexline>      (C14: what ec_substitute's matcher answers on every suffix)
+ *     -> path=<s|g|x> cut=<n> <k>.<nb>=<so>,<eo>,<so1>,<eo1>,... for every byte offset k of the line and
+ *        nb = 0/1 (RE_NOTBOL) on which rstr_find(re, line + k, 16, offs, nb) finds a match
  */
 #include "rstr.c"
 #include "probe_util.h"
@@ -179,6 +182,35 @@ static void do_sweep(char *hpat, int maxlen, char *alphaspec)
 	free(pat);
 }
 
+#define NT	16
+static void do_table(char *hpat, int icase, char *hline)
+{
+	int plen, llen, k, nb, i, cut = 0;
+	char *pat = pu_unhex(hpat, &plen, 0, 0);
+	char *line = pu_unhex(hline, &llen, 0, 0);
+	struct rstr *rs = rstr_make(pat, icase ? RE_ICASE : 0);
+	printf("path=%c", !rs ? 'x' : rs->rs ? 'g' : 's');
+	CUT_RESET();
+	for (k = 0; rs && k < llen; k++) {
+		for (nb = 0; nb < 2; nb++) {
+			int offs[NT * 2];
+			for (i = 0; i < NT * 2; i++)
+				offs[i] = SENT;
+			if (rstr_find(rs, line + k, NT, offs, nb ? RE_NOTBOL : 0) >= 0) {
+				printf(" %d.%d=", k, nb);
+				for (i = 0; i < NT * 2; i++)
+					printf(i ? ",%d" : "%d", offs[i]);
+			}
+		}
+	}
+	cut = CUT_GET();
+	printf(" cut=%d\n", cut);
+	if (rs)
+		rstr_free(rs);
+	free(pat);
+	free(line);
+}
+
 int main(void)
 {
 	char *l;
@@ -187,6 +219,8 @@ int main(void)
 		int n = pu_words(l, w, 8);
 		if (n == 4 && !strcmp(w[0], "f"))
 			do_find(w[1], w[2], atoi(w[3]));
+		else if (n == 4 && !strcmp(w[0], "tb"))
+			do_table(w[1], atoi(w[2]), w[3]);
 		else if (n == 4 && !strcmp(w[0], "sw"))
 			do_sweep(w[1], atoi(w[2]), w[3]);
 		else
